@@ -260,6 +260,52 @@ def run_case(case, res):
                             expk.add((Literal(start.data_id), Literal(start.kind)))
                         if gotk != expk:
                             bad.append(f"RDF kind triples: got {sorted(map(str, gotk))}, expected {sorted(map(str, expk))}")
+            # Mermaid layout options (markdown fence, title, direction, headers) and string templates must not change
+            # the described graph; path targets give the same text as stream targets
+            import os as _os
+            import shutil as _sh
+            import tempfile as _tf
+
+            fp0 = io.StringIO()
+            t.to_mermaid_flowchart(fp0)
+            n0, e0, r0 = parse_mermaid(fp0.getvalue())
+            for kwm in ({"as_markdown": False}, {"title": False}, {"title": "My title", "direction": "LR"}, {"headers": ["%% a header"]},
+                        {"node_mapper": "{node.name}"}, {"unique_nodes": False, "as_markdown": False, "title": "x"}):
+                fpv = io.StringIO()
+                r = attempt(lambda: t.to_mermaid_flowchart(fpv, **kwm))
+                res.count("mermaid_option_variants")
+                if isinstance(r, tuple):
+                    bad.append(f"to_mermaid_flowchart({kwm}) raised {r!r}")
+                    continue
+                nv, ev, rv = parse_mermaid(fpv.getvalue())
+                if "unique_nodes" in kwm:
+                    fpu = io.StringIO()
+                    t.to_mermaid_flowchart(fpu, unique_nodes=False)
+                    nb, eb, rb = parse_mermaid(fpu.getvalue())
+                else:
+                    nb, eb = n0, e0
+                if nv != nb or ev != eb:
+                    bad.append(f"to_mermaid_flowchart({kwm}) describes another graph than the default call")
+                if kwm.get("as_markdown") is False and "```" in fpv.getvalue():
+                    bad.append("as_markdown=False still emits a code fence")
+            tmpd = _tf.mkdtemp(prefix="vmon-c17-")
+            try:
+                pth = _os.path.join(tmpd, "g.md")
+                t.to_mermaid_flowchart(pth)
+                if open(pth).read() != fp0.getvalue():
+                    bad.append("to_mermaid_flowchart(path) differs from the stream output")
+                from pathlib import Path as _P
+
+                dp = _P(tmpd) / "g.gv"
+                t.to_dotfile(dp)
+                if dp.read_text() != "".join(l + "\n" for l in t.to_dot()):
+                    bad.append("to_dotfile(Path) differs from to_dot()")
+                t.to_dotfile(str(dp), unique_nodes=False, add_root=False)
+                if dp.read_text() != "".join(l + "\n" for l in t.to_dot(unique_nodes=False, add_root=False)):
+                    bad.append("to_dotfile(str path, options) differs from to_dot(options)")
+                res.count("file_targets")
+            finally:
+                _sh.rmtree(tmpd, ignore_errors=True)
             # to_dotfile(stream) == to_dot lines
             fp = io.StringIO()
             r = attempt(lambda: t.to_dotfile(fp))
